@@ -251,6 +251,20 @@ META["C16"] = {
     "level_text": "seeded search over telemetry streams and command sequences: the N-th executed record carries the clocks, activity and flags of the N-th traced transition, derived data (added/removed states, time sum and diff, error index) follows from consecutive records, TxIndex/TxAtQueueTick/TxAtMachTime/TxAtHTime/HadErrSinceTx equal a linear scan, ScrollToTx/Fwd/Back move the cursor over shown transitions only and Fwd+Back returns, no shown transition falls under an active filter, the cursor never rests on a hidden one after a filter toggle, an exported session imports to the same records, derived data and error index",
     "level_note": "trusts testing/synctest, the tcell simulation screen, the recording tracer",
 }
+META["C15"] = {
+    "budget": {"quick": 45, "thorough": 900},
+    "stall_s": 120,
+    "rule": "one run = a real node Supervisor with drawn pool settings (Min/Max/Warm 0..6, WorkerErrKill 0..3, Heartbeat 5s..1m), its bootstrap machines, rpc Mux/Server/Client stacks and real Workers forked in memory through TestFork/TestKill, on the simulated network (a third of the runs with scheduler-chosen delivery order) and the fake clock; TestFork outcomes per fork (ok / error / slow by 1..12 s / never calls back) and 0..8 timed events (a worker stops, an error is reported for a worker, a connection is cut, extra Heartbeat / CheckPool rounds, work-status mutations on a worker); a tracer on the supervisor machine evaluates the pool oracle after every transition; non-trivial = the supervisor started; distinct = distinct plans",
+    "components": {"real": MACHINE_REAL + ["pkg/node (Supervisor, bootstrap, Worker)", "pkg/rpc (Mux, Server, Client, NetworkMachine over rpc2/gob)", "pkg/states/pipes"], "stub": ["worker processes are in-memory Workers started by the TestFork seam and stopped by TestKill (no os/exec)", "the network is verifsim/simnet"]},
+    "assumptions": [
+        "the supervisor's view of a worker (its NetworkMachine mirror) is what 'ready at that moment' refers to; a worker counts as ready for activation when its mirror has Ready, and as still ready for withdrawal when it additionally has no recent error",
+        "errors are counted as the supervisor observes them: one per ErrWorker activation carrying the worker's address",
+        "simulated time per run stays below the 10 minute error TTL",
+    ],
+    "probes": ["pool-ready", "pool-ready-withdrawn", "worker-error", "kill-due", "kill-requested", "fork-ok", "fork-fail", "fork-slow", "fork-ghost", "event-kill", "event-err", "event-cut", "event-work"],
+    "level_text": "seeded search over pool settings, fork outcomes, worker failures and schedules: after every supervisor transition tracked workers <= Max, no fork state accepted at Max, PoolReady activates only with >= min(Min,Max) ready mirrors and is not withdrawn while that many error-free ready workers remain, a worker past WorkerErrKill errors gets a KillingWorker request before quiescence, PoolStatus / PoolNormalized / WorkStatus groups never have two members active",
+    "level_note": "trusts testing/synctest, the simulated network, the verif-tagged VerifWorkers accessor; the exhaustive enumeration of schema active sets named in the quantifier is model checking and not done here",
+}
 
 NOT_YET = "check not built yet in this session (planned, see DESIGN.md section 5)"
 NOT_APPLICABLE = {
